@@ -323,6 +323,15 @@ M("C07", "bonds-validator-loosened", "iodata/iodata.py", r"(bonds: Optional\[NDA
 M("C07", "validate-shape-zero-is-wildcard", "iodata/attrutils.py", r"                if es is None:\n                    continue", "                if not es:\n                    continue", "C07-R5")
 M("C04", "gro-positions-partly-scaled", F + "gromacs.py", r"    pos \*= nanometer  # atom", "    pos[:, :2] *= nanometer  # atom", "C04-R1")
 
+for _p, _r15, _r16 in (("C01", "R15", "R16"), ("C02", "R18", "R19")):
+    M(_p, "wfn-mo-header-occ-energy-swapped", F + "wfn.py", r"FMT_MOS\.format\(iorb \+ 1, 0, occ, energy\)", "FMT_MOS.format(iorb + 1, 0, energy, occ)", f"{_p}-{_r16}")
+    M(_p, "molden-beta-block-with-alpha-energies", F + "molden.py", r"            data\.mo\.energiesb,\n", "            data.mo.energiesa,\n", f"{_p}-{_r15}")
+    M(_p, "molden-occup-and-ene-swapped", F + "molden.py", r'f\.write\(f" Occup= \{occs\[ifn\]:\.17e\}\\n"\)', 'f.write(f" Occup= {energies[ifn]:.17e}\\\\n")', f"{_p}-{_r15}")
+M("C10", "wfn-primitive-names-d-block-reversed", F + "wfn.py", r"operator\.iadd, \[CONVENTIONS\[\(angmom, \"c\"\)\] for angmom in range\(6\)\], \[\]", 'operator.iadd, [CONVENTIONS[(angmom, "c")][::-1] for angmom in range(6)], []', "C10-R1")
+M("C10", "convert-conventions-reverse-default-true", "iodata/convert.py", r"new_conventions: dict\[str, list\[str\]\], reverse=False", "new_conventions: dict[str, list[str]], reverse=True", "C10-R3")
+M("C17", "gaussianlog-claims-out-files", F + "gaussianlog.py", r'PATTERNS = \["\*\.log"\]', 'PATTERNS = ["*.log", "*.out"]', "C17-R8")
+M("C17", "registry-drops-modules-with-empty-patterns", "iodata/api.py", r'            if hasattr\(format_module, "PATTERNS"\):', '            if getattr(format_module, "PATTERNS", None):', "C17-R9")
+
 # ----------------------------------------------------------------------------- additions (fourth round, batch 6)
 M("C07", "extxyz-title-parsed-after-putback", F + "extxyz.py", r"    atom_columns, title_data = _parse_title\(title_line, lit\)\n    lit\.back\(title_line\)\n    lit\.back\(atom_line\)\n", "    lit.back(title_line)\n    lit.back(atom_line)\n    atom_columns, title_data = _parse_title(title_line, lit)\n", "C07-R8")
 M("C07", "mol2-atom-loop-skips-blank-lines", F + "mol2.py", r"(    for i in range\(natoms\):\n        words = next\(lit\)\.split\(\)\n)", "\\1        if not words:\n            continue\n", "C07-R9")
